@@ -189,8 +189,21 @@ def run(repo, rep):
     p7 = []
     for (e, s), d in sorted(cell_raises.items()):
         for exc, meths in sorted(d.items()):
-            if exc in ('OSError',) or ((e, s) in ((10, 6), (10, 7)) and exc == 'Exception'):
-                continue      # transport failures are absorbed by run; reassembly failures are E2's
+            if (e, s) in ((10, 6), (10, 7)) and exc == 'Exception':
+                continue      # reassembly failures are E2's
+            if exc in ('OSError',):
+                # a failing transmission / connect is absorbed by run (the association is gone).  A cell that transmits
+                # nothing only indicates, closes or moves on: nothing there may fail on a connection the peer has reset
+                acts_ = list(ps3_8.ACTIONS[ps3_8.TABLE[(e, s)]])
+                if any(a_['send'] or a_['connect'] for a_ in acts_):
+                    continue
+                if (e, s) in ((10, 6), (10, 7)) and all(oc_.exc_path for oc_ in model.summarize(model.table[('EVT_%d' % e, 'STA_%d' % s)], *cell_context(e, s))
+                                                        if oc_.kind == 'raise' and oc_.exc == 'OSError'):
+                    continue      # the failing transmission is the A-ABORT of the reassembly-failure branch (AA-8)
+                p7.append('%s: %s() raises OSError although its cell transmits nothing (closing a connection the peer has reset must not '
+                          'fail): the loop ends through the last-resort handler with a second indication'
+                          % (cell_key(e, s), '/'.join(sorted(meths))))
+                continue
             p7.append('%s: %s() raises %s (transport %s)' % (cell_key(e, s), '/'.join(sorted(meths)), exc, cell_context(e, s)[1]))
     rep.check(not p7, 'C12.E7', 'fsm:StateMachine.transition_table:action-errors', model.sm.loc(),
               'no action raises a non-transport error in its cell context (%d cells)' % len(cell_raises), '; '.join(p7[:6]))
